@@ -38,6 +38,9 @@ SURROUND = [
     ["class Other(object):\n    a: int = 1\n\n    def train(self, a):\n        return a", "Y = [1, 2]"],
     ["def train_all(a):\n    \"\"\"doc\"\"\"\n    return a", "class ConfigClassBase(object):\n    pass"],
     ["import os", "ConfigClass = os.path.join(ConfigClass.__name__, 'x') if False else ConfigClass\nset_cli_args = set_cli_args\ntrain = train"],
+    # definitions with the target's name INSIDE a coroutine / an except handler that precede the target (other scopes, must be left alone)
+    ["async def fetch(a):\n    class ConfigClass(object):\n        z: int = 0\n\n    def set_cli_args(p):\n        return p\n\n    train = a\n    return ConfigClass",
+     "try:\n    import os\nexcept ImportError as err:\n    ConfigClass = None"],
 ]
 
 
@@ -74,6 +77,22 @@ TABLE = [(tk, sur, pos, nl, st, method)
          for method in (0, 1) if not (method and tk != 2)]
 
 
+def cell_files(truth_i, c):
+    """the project of table cell c: truth file + one target module with surroundings"""
+    tk, sur, pos, nl, st, method = TABLE[c]
+    truth, target = KINDS[truth_i], KINDS[tk]
+    ir = IRS[0]()
+    files = {FILES[truth]: render(truth, ir, method)}
+    gold = parse_target(truth, files[FILES[truth]], method)
+    gold.pop("_internal", None)
+    parts = list(SURROUND[sur])
+    if st != "absent":
+        parts.insert(min(pos, len(parts)), render(target, STALE() if st == "stale" else gold, method).rstrip("\n"))
+    text = "\n\n".join(parts) + ("\n" if nl else "")
+    files[FILES[target]] = text
+    return files, text
+
+
 def preserve(truth_i, c, active):
     """target kind tk (!= truth) lives in a module with surrounding statements; after sync the rest of the module is untouched"""
     c = realize(c)
@@ -82,15 +101,7 @@ def preserve(truth_i, c, active):
         truth, target = KINDS[truth_i], KINDS[tk]
         if truth == target:
             return True
-        ir = IRS[0]()
-        files = {FILES[truth]: render(truth, ir, method)}
-        gold = parse_target(truth, files[FILES[truth]], method)
-        gold.pop("_internal", None)
-        parts = list(SURROUND[sur])
-        if st != "absent":
-            parts.insert(min(pos, len(parts)), render(target, STALE() if st == "stale" else gold, method).rstrip("\n"))
-        text = "\n\n".join(parts) + ("\n" if nl else "")
-        files[FILES[target]] = text
+        files, text = cell_files(truth_i, c)
         fs = FS(files)
         before = ast.parse(text)
         kf_cell = False
